@@ -151,7 +151,10 @@ def prepare_sources(pid, unit, scratch):
         if unit.get('kind') != 'B' and not unit.get('subst_reason'):
             raise Inconclusive('textual substitution needs kind B or a stated semantics-preserving reason (subst_reason)')
         text = open(os.path.join(REPO, rel)).read()
-        for a, b, cnt in pairs:
+        for pair in pairs:
+            a, b, cnt = pair[0], pair[1], pair[2]
+            if len(pair) > 3 and pair[3] == 'optional' and text.count(a) == 0:
+                continue    # the construct the substitution works around is not in the tree under test
             if text.count(a) != cnt:
                 raise Inconclusive('substitution %r expected %d times in %s, found %d' % (a, cnt, rel, text.count(a)))
             text = text.replace(a, b)
